@@ -187,11 +187,65 @@ def annotate(arm, case, present):
     return used
 
 
-def build_topo(case):
-    """deterministic construction of a substrate model from the recipe, with the real user API"""
+def add_worker(t, ctx, si, wn, w):
+    """one worker with its components through the user API; NIC ports are patched to new switch ports"""
+    import fim.user as f
+    sn = 'S%d' % si
+    swport, st = ctx['swport'][si], ctx['stitch'][si]
+    kw = {'capacities': f.Capacities(core=32, cpu=2, unit=1, ram=512, disk=4800)} if w.get('cap', True) else {}
+    node = t.add_node(name=wn, model='R7525', site=sn, node_id=wn + '-id', ntype=f.NodeType.Server, **kw)
+    for ci, c in enumerate(w.get('comps', [])):
+        cn = '%s-%s%d' % (wn, c, ci)
+        if c == 'nic':
+            node.add_component(name=cn, model='ConnectX-6', node_id=cn + '-id',
+                               network_service_node_id=cn + '-sf',
+                               interface_node_ids=[cn + '-p1-id', cn + '-p2-id'],
+                               interface_labels=[f.Labels(mac='04:3F:72:B7:15:74', vlan_range='1-4096'),
+                                                 f.Labels(mac='04:3F:72:B7:15:75', vlan_range='1-4096')],
+                               ctype=f.ComponentType.SmartNIC, capacities=f.Capacities(unit=1),
+                               labels=f.Labels(bdf=['0000:41:00.0', '0000:41:00.1']))
+            ports = [cn + '-p1'] + ([cn + '-p2'] if w.get('both_ports') else [])
+        elif c == 'shnic':
+            node.add_component(name=cn, model='ConnectX-6', node_id=cn + '-id',
+                               network_service_node_id=cn + '-sf', interface_node_ids=[cn + '-p1-id'],
+                               interface_labels=[f.Labels(bdf=['0000:e2:00.2', '0000:e2:00.3'],
+                                                          mac=['04:3F:72:B7:14:ED', '04:3F:72:B7:14:EE'],
+                                                          vlan=['1001', '1002'])],
+                               capacities=f.Capacities(unit=2), labels=f.Labels(bdf=['0000:e2:00.2', '0000:e2:00.3']),
+                               ctype=f.ComponentType.SharedNIC)
+            ports = [cn + '-p1']
+        elif c == 'gpu':
+            node.add_component(name=cn, model='RTX6000', node_id=cn + '-id', ctype=f.ComponentType.GPU,
+                               capacities=f.Capacities(unit=1), labels=f.Labels(bdf='0000:25:00.0'))
+            ports = []
+        else:
+            node.add_component(name=cn, model='P4510', node_id=cn + '-id', ctype=f.ComponentType.NVME,
+                               capacities=f.Capacities(unit=1, disk=1000), labels=f.Labels(bdf='0000:21:00.0'))
+            ports = []
+        for pn in ports:
+            sp = swport(st)
+            t.add_link(name='l-' + pn, ltype=f.LinkType.Patch, interfaces=[node.interfaces[pn], sp],
+                       node_id=sp.node_id + '-DAC')
+
+
+def add_fac(t, ctx, si, fn, port=None):
+    import fim.user as f
+    sn = 'S%d' % si
+    fac = t.add_facility(name=fn, node_id=fn + '-id', site=sn,
+                         capacities=f.Capacities(mtu=1500, bw=10), labels=f.Labels(vlan_range='1-100'))
+    if port is None:
+        port = ctx['swport'][si](False)
+    t.add_link(name=fn + '-link', node_id=fn + '-link-id', ltype=f.LinkType.L2Path,
+               interfaces=[fac.interface_list[0], port])
+    return port
+
+
+def build_topo_ctx(case):
+    """deterministic construction of a substrate model from the recipe, with the real user API;
+    returns the topology object and what is needed to keep growing it"""
     import fim.user as f
     t = f.SubstrateTopology()
-    switches = {}
+    ctx = {'swport': {}, 'stitch': {}}
     for si, site in enumerate(case['sites']):
         sn = 'S%d' % si
         st = bool(site.get('stitch', True))
@@ -199,62 +253,22 @@ def build_topo(case):
                         ntype=f.NodeType.Switch, stitch_node=st)
         ns = sw.add_network_service(name=sn + '-sw-ns', node_id=sn + '-sw-ns-id', nstype=f.ServiceType.MPLS,
                                     stitch_node=st, **({} if st else {'labels': f.Labels(vlan_range='1-100')}))
-        switches[si] = (sw, ns)
-        pidx = [0]
 
-        def swport(stitch, caps=True):
+        def swport(stitch, caps=True, ns=ns, sn=sn, pidx=[0]):
             pidx[0] += 1
             kw = {}
             if caps and not stitch:
                 kw = {'capacities': f.Capacities(bw=100), 'labels': f.Labels(vlan_range='1-4096')}
             return ns.add_interface(name='HundredGigE0/0/0/%d' % pidx[0], itype=f.InterfaceType.TrunkPort,
                                     node_id='%s-sw-port%d' % (sn, pidx[0]), stitch_node=stitch, **kw)
-        site['_swport'] = swport
+        ctx['swport'][si] = swport
+        ctx['stitch'][si] = st
         for wi, w in enumerate(site.get('workers', [])):
-            wn = '%s-w%d' % (sn, wi)
-            kw = {'capacities': f.Capacities(core=32, cpu=2, unit=1, ram=512, disk=4800)} if w.get('cap', True) else {}
-            node = t.add_node(name=wn, model='R7525', site=sn, node_id=wn + '-id', ntype=f.NodeType.Server, **kw)
-            for ci, c in enumerate(w.get('comps', [])):
-                cn = '%s-%s%d' % (wn, c, ci)
-                if c == 'nic':
-                    comp = node.add_component(name=cn, model='ConnectX-6', node_id=cn + '-id',
-                                              network_service_node_id=cn + '-sf',
-                                              interface_node_ids=[cn + '-p1-id', cn + '-p2-id'],
-                                              interface_labels=[f.Labels(mac='04:3F:72:B7:15:74', vlan_range='1-4096'),
-                                                                f.Labels(mac='04:3F:72:B7:15:75', vlan_range='1-4096')],
-                                              ctype=f.ComponentType.SmartNIC, capacities=f.Capacities(unit=1),
-                                              labels=f.Labels(bdf=['0000:41:00.0', '0000:41:00.1']))
-                    ports = [cn + '-p1'] + ([cn + '-p2'] if w.get('both_ports') else [])
-                elif c == 'shnic':
-                    comp = node.add_component(name=cn, model='ConnectX-6', node_id=cn + '-id',
-                                              network_service_node_id=cn + '-sf', interface_node_ids=[cn + '-p1-id'],
-                                              interface_labels=[f.Labels(bdf=['0000:e2:00.2', '0000:e2:00.3'],
-                                                                         mac=['04:3F:72:B7:14:ED', '04:3F:72:B7:14:EE'],
-                                                                         vlan=['1001', '1002'])],
-                                              capacities=f.Capacities(unit=2), labels=f.Labels(bdf=['0000:e2:00.2', '0000:e2:00.3']),
-                                              ctype=f.ComponentType.SharedNIC)
-                    ports = [cn + '-p1']
-                elif c == 'gpu':
-                    node.add_component(name=cn, model='RTX6000', node_id=cn + '-id', ctype=f.ComponentType.GPU,
-                                       capacities=f.Capacities(unit=1), labels=f.Labels(bdf='0000:25:00.0'))
-                    ports = []
-                else:
-                    node.add_component(name=cn, model='P4510', node_id=cn + '-id', ctype=f.ComponentType.NVME,
-                                       capacities=f.Capacities(unit=1, disk=1000), labels=f.Labels(bdf='0000:21:00.0'))
-                    ports = []
-                for pn in ports:
-                    sp = swport(st)
-                    t.add_link(name='l-' + pn, ltype=f.LinkType.Patch, interfaces=[node.interfaces[pn], sp],
-                               node_id=sp.node_id + '-DAC')
+            add_worker(t, ctx, si, '%s-w%d' % (sn, wi), w)
         shared = None
         for fi in range(site.get('facs', 0)):
-            fn = '%s-fac%d' % (sn, fi)
-            fac = t.add_facility(name=fn, node_id=fn + '-id', site=sn,
-                                 capacities=f.Capacities(mtu=1500, bw=10), labels=f.Labels(vlan_range='1-100'))
-            if shared is None or not site.get('share_fac_port'):
-                shared = swport(False)
-            t.add_link(name=fn + '-link', node_id=fn + '-link-id', ltype=f.LinkType.L2Path,
-                       interfaces=[fac.interface_list[0], shared])
+            p = add_fac(t, ctx, si, '%s-fac%d' % (sn, fi), shared if site.get('share_fac_port') else None)
+            shared = p
         if site.get('p4'):
             p4 = t.add_switch(name=sn + '-p4', site=sn, node_id=sn + '-p4-id', nports=2)
             for k in (1, 2):
@@ -262,13 +276,15 @@ def build_topo(case):
                 t.add_link(name='%s-p4l%d' % (sn, k), ltype=f.LinkType.Patch, interfaces=[p4.interfaces['p%d' % k], sp],
                            node_id=sp.node_id + '-DAC')
     for k, (i, j) in enumerate(case.get('isl', [])):
-        if i in switches and j in switches and i != j:
-            a = case['sites'][i]['_swport'](False)
-            b = case['sites'][j]['_swport'](False)
+        if i in ctx['swport'] and j in ctx['swport'] and i != j:
+            a = ctx['swport'][i](False)
+            b = ctx['swport'][j](False)
             t.add_link(name='isl%d' % k, ltype=f.LinkType.L2Path, interfaces=[a, b], node_id='isl%d-%d-%d-Wave' % (k, i, j))
-    for s in case['sites']:
-        s.pop('_swport', None)
-    return t.as_arm()
+    return t, ctx
+
+
+def build_topo(case):
+    return build_topo_ctx(case)[0].as_arm()
 
 
 def build_raw(case):
@@ -292,15 +308,74 @@ def build_raw(case):
     return NetworkXARMGraph(graph=pg)
 
 
+def apply_mutation(t, ctx, arm, rnd):
+    """one round of changes to the aggregate model through the SubstrateTopology API (which shares the graph with
+    every ARM wrapper): rack new workers / facilities, remove nodes, drop delegation properties"""
+    done = {'grown': 0, 'removed': 0, 'refused': 0}
+    for g in rnd.get('grow', []):
+        if g['site'] in ctx['swport']:
+            try:
+                add_worker(t, ctx, g['site'], g['name'], g['w'])
+                done['grown'] += 1
+            except Exception:
+                done['refused'] += 1
+    for si, fn in rnd.get('facs', []):
+        if si in ctx['swport']:
+            try:
+                add_fac(t, ctx, si, fn)
+                done['grown'] += 1
+            except Exception:
+                done['refused'] += 1
+    for name in rnd.get('remove', []):
+        try:
+            t.remove_node(name)
+            done['removed'] += 1
+        except Exception:
+            done['refused'] += 1
+    from fim.graph.abc_property_graph import ABCPropertyGraph
+    present = set(snapshot(arm.storage, arm.graph_id)['nodes'].keys())
+    for nid, ty in rnd.get('unann', []):
+        if nid in present:
+            arm.unset_node_property(node_id=nid, prop_name=ABCPropertyGraph.PROP_LABEL_DELEGATIONS if ty == 'L'
+                                    else ABCPropertyGraph.PROP_CAPACITY_DELEGATIONS)
+    return done
+
+
 def run_case(case):
-    from fim.graph.resources.networkx_adm import NetworkXADMFactory
+    """one partitioning, or (case['rounds']) a history: partition; change the aggregate through the API;
+    partition again with the SAME ARM object or with a fresh wrapper -- every round observed in full"""
     imp = _reset()
     case = copy.deepcopy(case)
-    arm = build_topo(case) if case['stream'] == 'topo' else build_raw(case)
+    t = ctx = None
+    if case['stream'] == 'topo':
+        t, ctx = build_topo_ctx(case)
+        arm = t.as_arm()
+    else:
+        arm = build_raw(case)
+    storage = arm.storage
+    present = set(snapshot(storage, arm.graph_id)['nodes'].keys())
+    via = annotate(arm, case, present)
+    obs = partition_obs(arm, case, via)
+    if case.get('rounds') and t is not None:
+        obs['rounds'] = []
+        for rnd in case['rounds']:
+            done = apply_mutation(t, ctx, arm, rnd)
+            arm_r = arm if rnd.get('same_arm', True) else t.as_arm()
+            present = set(snapshot(storage, arm_r.graph_id)['nodes'].keys())
+            annotate(arm_r, {'ann': rnd.get('ann', []), 'via': 'direct'}, present)
+            o = partition_obs(arm_r, rnd, 'direct')
+            o['same_arm'] = bool(rnd.get('same_arm', True))
+            o['mutation'] = done
+            obs['rounds'].append(o)
+    return obs
+
+
+def partition_obs(arm, case, via):
+    """generate_adms + rewrite_delegations on the current state of the store; the partitions are removed from the
+    store afterwards (they are snapshotted first), so that rounds do not pile up"""
+    from fim.graph.resources.networkx_adm import NetworkXADMFactory
     storage = arm.storage
     garm = arm.graph_id
-    present = set(snapshot(storage, garm)['nodes'].keys())
-    via = annotate(arm, case, present)
     before = snapshot(storage, garm)
     guids = {d: 'adm-guid-' + d for d in case.get('guids', [])}
     bad = case.get('bad_guid')
@@ -316,6 +391,9 @@ def run_case(case):
         obs['err'] = type(e).__name__
         obs['store'] = sorted(ren.get(g, 'unexpected:' + str(g)) for g in store_graph_ids(storage))
         obs['after'] = snapshot(storage, garm)
+        for g in store_graph_ids(storage):
+            if g != garm:
+                storage.del_graph(g)
         return obs
     obs['adms'] = {}
     for d in sorted(adms):
@@ -347,6 +425,9 @@ def run_case(case):
         except Exception as e:
             raised = type(e).__name__
         obs['rw_arm'] = {'key': 'real-arm', 'raised': raised, 'order': order, 'snap': strip_text(snapshot(storage, 'arm-clone'))}
+    for g in store_graph_ids(storage):
+        if g != garm:
+            storage.del_graph(g)
     return obs
 
 
@@ -791,6 +872,181 @@ class Topo(C13Stream):
         return load_corpus('topo')
 
 
+class Hist(C13Stream):
+    name = 'hist'
+    case_type = 'list case13'
+    check_fn = 'check13_hist'
+    shard = 25
+    rule = ('histories on API-built substrate models: partition; then 1-2 rounds of [rack new workers / facilities, '
+            'remove a worker, drop or rewrite delegation properties, delegate the new nodes (possibly to an id that '
+            'exists only on them)] each followed by a partitioning with the SAME ARM object (70%) or a fresh as_arm() '
+            'wrapper; every round compared with the model of the current graph and judged by the oracle; '
+            'non-trivial = some round changed the node set; distinct by the canonical snapshots of all rounds')
+
+    def all_rounds(self, o):
+        return [o] + list(o.get('rounds', []))
+
+    def to_coq(self, case, o):
+        if 'build_error' in o:
+            return '[mkCase (mkGraph [] []) 0 [] (mkObs (Ok []) [] None [] None)]'
+        return clist([case_to_coq(case, r) for r in self.all_rounds(o)])
+
+    def oracle(self, case, o):
+        if 'build_error' in o:
+            return 'harness could not build the case: ' + o['build_error']
+        weak = None
+        for i, r in enumerate(self.all_rounds(o)):
+            strict, w = oracle_case(case, r)
+            if strict:
+                how = 'first partitioning' if i == 0 else ('partitioning %d with %s' % (
+                    i + 1, 'the SAME ARM object' if r.get('same_arm') else 'a fresh ARM wrapper'))
+                return '%s [%s, after %s]' % (strict, how, r.get('mutation', 'construction'))
+            weak = weak or w
+        return weak
+
+    def key(self, case, o):
+        if 'before' not in o:
+            return None
+        rs = self.all_rounds(o)
+        if all(set(r['before']['nodes']) == set(rs[0]['before']['nodes']) for r in rs):
+            return None
+        return stable_hash([strip_text(r['before']) for r in rs])
+
+    def describe(self, case, o):
+        if 'before' not in o:
+            return {'case': case, 'impl': o}
+        return {'case': case, 'impl': [{'nodes': len(r['before']['nodes']), 'same_arm': r.get('same_arm'),
+                                        'mutation': r.get('mutation'), 'err': r.get('err'),
+                                        'partitions': {d: len(v['snap']['nodes']) for d, v in r.get('adms', {}).items()}}
+                                       for r in self.all_rounds(o)]}
+
+    def histogram(self, cases, obs):
+        flat_c, flat_o = [], []
+        extra = {'histories': 0, 'rounds_same_arm_object': 0, 'rounds_fresh_wrapper': 0, 'rounds_node_set_grew': 0,
+                 'rounds_node_set_shrank': 0, 'rounds_with_id_only_on_new_nodes': 0, 'api_refused_mutations': 0}
+        for c, o in zip(cases, obs):
+            if 'before' not in o:
+                continue
+            extra['histories'] += 1
+            rs = self.all_rounds(o)
+            for i, r in enumerate(rs):
+                flat_c.append(c if i == 0 else c['rounds'][i - 1])
+                flat_o.append(r)
+                if i:
+                    prev, cur = set(rs[i - 1]['before']['nodes']), set(r['before']['nodes'])
+                    extra['rounds_same_arm_object' if r['same_arm'] else 'rounds_fresh_wrapper'] += 1
+                    extra['rounds_node_set_grew'] += bool(cur - prev)
+                    extra['rounds_node_set_shrank'] += bool(prev - cur)
+                    extra['api_refused_mutations'] += r['mutation']['refused']
+                    old_ids = set()
+                    for n in prev & cur:
+                        for m in (r['before']['nodes'][n]['ld'], r['before']['nodes'][n]['cd']):
+                            old_ids |= set(m or {})
+                    extra['rounds_with_id_only_on_new_nodes'] += bool(all_dids(r['before']) - old_ids)
+        h = C13Stream.histogram(self, flat_c, flat_o)
+        h.update(extra)
+        return h
+
+    def shrink(self, case, failing):
+        case = copy.deepcopy(case)
+        cat = lambda w: (w or '').split(':')[0].split(' raised ')[0]
+        want = cat(self.oracle(case, self.observe(case)))
+        fails = lambda c: (lambda w: w is not None and cat(w) == want)(self.oracle(c, self.observe(c)))
+        rounds = case.get('rounds', [])
+        i = len(rounds) - 1
+        while i >= 0 and len(rounds) > 1:
+            x = rounds.pop(i)
+            if not fails(case):
+                rounds.insert(i, x)
+            i -= 1
+        for r in rounds:
+            for k in ('ann', 'unann', 'remove', 'facs', 'grow', 'guids'):
+                lst = r.get(k, [])
+                j = len(lst) - 1
+                while j >= 0:
+                    x = lst.pop(j)
+                    if not fails(case):
+                        lst.insert(j, x)
+                    j -= 1
+            for g in r.get('grow', []):
+                comps = g['w'].get('comps', [])
+                j = len(comps) - 1
+                while j >= 0:
+                    x = comps.pop(j)
+                    if not fails(case):
+                        comps.insert(j, x)
+                    j -= 1
+        return C13Stream.shrink(self, case, failing)
+
+    def gen(self, rng, tier):
+        n = 60 if tier == 'quick' else 500
+        topo = Topo()
+        out = []
+        for i in range(n):
+            case = topo.recipe(rng, big=False)
+            _reset()
+            t, ctx = build_topo_ctx(copy.deepcopy(case))
+            arm = t.as_arm()
+
+            def nodemap():
+                snap = snapshot(arm.storage, arm.graph_id)
+                return {nid: (v['Class'], v['Stitch'] == 'true') for nid, v in snap['nodes'].items()}
+            nodes = nodemap()
+            k = rng.choice([1, 2, 2, 3])
+            case['via'] = rng.choice(['annotate', 'direct'])
+            case['ann'] = gen_annotations(rng, nodes, k, case['via'])
+            case['guids'] = [d for d in DIDS[:k] if rng.random() < 0.3]
+            case['bad_guid'] = None
+            case['realid'] = rng.random() < 0.5
+            case['rw_arm'] = False
+            workers = ['S%d-w%d' % (si, wi) for si, s in enumerate(case['sites']) for wi in range(len(s.get('workers', [])))]
+            case['rounds'] = []
+            for r in range(rng.choice([1, 1, 2])):
+                rnd = {'grow': [], 'facs': [], 'remove': [], 'unann': [], 'same_arm': rng.random() < 0.7,
+                       'guids': [d for d in DIDS[:k] if rng.random() < 0.2], 'bad_guid': gen_bad_guid(rng, k) if rng.random() < 0.3 else None,
+                       'realid': rng.random() < 0.5, 'rw_arm': False}
+                for j in range(rng.choice([0, 1, 1, 2])):
+                    si = rng.randrange(len(case['sites']))
+                    rnd['grow'].append({'site': si, 'name': 'S%d-g%d%d' % (si, r, j),
+                                        'w': {'comps': [rng.choice(['nic', 'shnic', 'gpu', 'nvme']) for _ in range(rng.choice([0, 1, 2]))],
+                                              'cap': True, 'both_ports': rng.random() < 0.3}})
+                if rng.random() < 0.25:
+                    si = rng.randrange(len(case['sites']))
+                    rnd['facs'].append([si, 'S%d-gfac%d' % (si, r)])
+                if workers and rng.random() < 0.3:
+                    w = rng.choice(workers)
+                    workers.remove(w)
+                    rnd['remove'].append(w)
+                annotated = sorted({(a[0], a[1]) for a in case['ann'] if a[0] in nodes})
+                for nid, ty in rng.sample(annotated, min(len(annotated), rng.choice([0, 0, 1, 3]))):
+                    rnd['unann'].append([nid, ty])
+                apply_mutation(t, ctx, arm, rnd)
+                workers += [g['name'] for g in rnd['grow']]
+                after = nodemap()
+                new = {nid: v for nid, v in after.items() if nid not in nodes}
+                some_old = {nid: after[nid] for nid in rng.sample(sorted(set(after) & set(nodes)), min(3, len(set(after) & set(nodes))))} \
+                    if rng.random() < 0.4 else {}
+                k2 = min(3, k + 1) if rng.random() < 0.5 else k
+                if k2 > k and new:
+                    # a delegation id that exists only on the new nodes
+                    rnd['ann'] = [a for a in gen_annotations(rng, new, 1, 'direct')]
+                    for a in rnd['ann']:
+                        if a[3] != 'E':
+                            a[2] = DIDS[k2 - 1]
+                    rnd['ann'] += gen_annotations(rng, some_old, k, 'direct')
+                    k = k2
+                else:
+                    rnd['ann'] = gen_annotations(rng, {**new, **some_old}, k, 'direct')
+                nodes = after
+                case['rounds'].append(rnd)
+            out.append(case)
+        _reset()
+        return out
+
+    def corpus(self):
+        return [c for c in load_corpus('topo', hist=True)]
+
+
 class Raw(C13Stream):
     name = 'raw'
     rule = ('raw property graphs of 2-14 nodes with arbitrary classes and edge relations (links with 1-3 connection '
@@ -846,13 +1102,13 @@ class Raw(C13Stream):
         return load_corpus('raw')
 
 
-def load_corpus(stream):
+def load_corpus(stream, hist=False):
     import glob
     out = []
     for p in sorted(glob.glob(os.path.join(VERIF, 'corpus', 'C13', '*.json'))):
         with open(p) as f:
             c = json.load(f)
-        if c.get('stream') == stream:
+        if c.get('stream') == stream and bool(c.get('rounds')) == hist:
             c.pop('_comment', None)
             out.append(c)
     return out
@@ -882,7 +1138,7 @@ class C13(Check):
     pid = 'C13'
     translators = ['gen_adm13']
     model_targets = ['Model/Adm13.vo']
-    streams = [Topo(), Raw()]
+    streams = [Topo(), Hist(), Raw()]
     trusted_base = [
         'Coq 8.16.1 kernel (coqc), vm_compute for the correspondence evaluation; no native_compute',
         'Print Assumptions of every C13 theorem: Closed under the global context (no axioms)',
